@@ -190,6 +190,18 @@ func (env *Env) evalCall(x *ast.CallExpr, st *State) Val {
 					}
 				}
 				return boolVal("false")
+			case "inloop":
+				// inloop(N): the statement this clause is evaluated at (the call of an atcall clause)
+				// lies inside the body of loop N of the function under verification
+				if bl, ok := unparen(x.Args[0]).(*ast.BasicLit); ok && bl.Kind == token.INT {
+					n, _ := strconv.Atoi(bl.Value)
+					for stmt, k := range env.c.loopIndex {
+						if k == n && stmt.Pos() <= env.scopePos && env.scopePos < stmt.End() {
+							return boolVal("true")
+						}
+					}
+				}
+				return boolVal("false")
 			case "ncalled":
 				// ncalled(Name): how many calls of Name happened on the path that reached this point
 				// (same scope as called(): loops forget the calls of their bodies)
